@@ -18,6 +18,7 @@ def make_km(kind, opts):
     if kind == 'string': return stringmap(**o)
     if kind == 'pickle': return picklemap(**o)
     if kind == 'picklep': return picklemap(serializer='pickle', **o)
+    if kind == 'dill2': return picklemap(serializer='dill', protocol=2, **o)
     if kind == 'hash': return hashmap(**o)
     return hashmap(algorithm=kind, **o)
 
@@ -51,7 +52,12 @@ def main():
             ii, ci = work[oi]
             item = job['items'][ii]
             f = FUNCS[item['func']] if item['func'] != 'm' else K().m
-            if ii not in kms: kms[ii] = make_km(item['km'][0], item['km'][1])
+            if ii not in kms:
+                kms[ii] = make_km(item['km'][0], item['km'][1])
+                if job.get('noise', 0) % 2:
+                    # this session has first seen an argument no keymap can encode (what a safe decorator shrugs off): it must leave no trace
+                    try: kms[ii]((i for i in ()), lambda: 0)
+                    except Exception: pass
             km = kms[ii]
             ign = tuple(item['ignore'])
             a, k = build(item['calls'][ci])
